@@ -4,6 +4,9 @@
 (* a program is a sequence of operations on one channel of capacity Cap    *)
 (*   "s1" "s2"  send 1 / 2        "r"  x = <-c (receive expression)        *)
 (*   "rk"       v, ok = <-c       "c"  close(c)                            *)
+(*   "rl"       d <- c  (relay: one item received from c is sent on to a   *)
+(*              second, roomy channel d; from a closed and drained c       *)
+(*              nothing is sent)          "dl"  len(d)                     *)
 (* The run yields one observation per operation:                           *)
 (*   send:  "ok" | "err" (closed channel)        close: "ok" | "err" (twice)*)
 (*   r:     the value, or "nil" when closed and drained                    *)
@@ -15,7 +18,7 @@
 EXTENDS Integers, Sequences, TLC
 
 Obs(k, a, b) == [k |-> k, a |-> a, b |-> b]       \* uniformly typed observation
-RECURSIVE Run(_, _, _, _, _, _, _)
+RECURSIVE Run(_, _, _, _, _, _, _), RunD(_, _, _, _, _, _, _, _)
 \* buf, closed, v (the value variable of rk, initially 77), accumulated observations
 Run(cap, ops, i, buf, closed, v, acc) ==
   IF i > Len(ops) THEN [blocks |-> FALSE, obs |-> acc]
@@ -35,5 +38,24 @@ Run(cap, ops, i, buf, closed, v, acc) ==
               IF Len(buf) > 0 THEN Run(cap, ops, i + 1, Tail(buf), closed, Head(buf), Append(acc, Obs("recvok", Head(buf), 1)))
               ELSE IF closed THEN Run(cap, ops, i + 1, buf, closed, v, Append(acc, Obs("recvok", v, 0)))     \* ok = false, v untouched
               ELSE [blocks |-> TRUE, obs |-> acc]
-SeqRun(cap, ops) == Run(cap, ops, 1, <<>>, FALSE, 77, <<>>)
+\* the same with the relay target d (never closed, never full): its content is the extra state
+RunD(cap, ops, i, buf, closed, v, acc, dbuf) ==
+  IF i > Len(ops) THEN [blocks |-> FALSE, obs |-> acc]
+  ELSE LET o == ops[i] IN
+       CASE o = "rl" ->
+              IF Len(buf) > 0 THEN RunD(cap, ops, i + 1, Tail(buf), closed, v, Append(acc, Obs("relay", Head(buf), 1)), Append(dbuf, Head(buf)))
+              ELSE IF closed THEN RunD(cap, ops, i + 1, buf, closed, v, Append(acc, Obs("relay", 0, 0)), dbuf)     \* nothing to pass on
+              ELSE [blocks |-> TRUE, obs |-> acc]
+         [] o = "dl" -> RunD(cap, ops, i + 1, buf, closed, v, Append(acc, Obs("dlen", Len(dbuf), 0)), dbuf)
+         [] OTHER ->    \* an operation on c alone: one step of Run
+              LET r == Run(cap, <<o>>, 1, buf, closed, v, <<>>) IN
+              IF r.blocks THEN [blocks |-> TRUE, obs |-> acc]
+              ELSE LET ob == r.obs[1]
+                       buf2 == CASE o \in {"s1", "s2"} /\ ob.a = 1 -> Append(buf, IF o = "s1" THEN 1 ELSE 2)
+                                 [] o \in {"r", "rk"} /\ ob.b = 1 -> Tail(buf)
+                                 [] OTHER -> buf
+                       v2 == IF o = "rk" /\ ob.b = 1 THEN ob.a ELSE v IN
+                   RunD(cap, ops, i + 1, buf2, closed \/ (o = "c"), v2, Append(acc, ob), dbuf)
+SeqRun(cap, ops) == IF \E j \in 1..Len(ops) : ops[j] \in {"rl", "dl"} THEN RunD(cap, ops, 1, <<>>, FALSE, 77, <<>>, <<>>)
+                    ELSE Run(cap, ops, 1, <<>>, FALSE, 77, <<>>)
 =============================================================================
